@@ -834,7 +834,7 @@ pub fn run_check(chk: Check, thorough: bool, seed: u64, extra_violation: Option<
             std::fs::create_dir_all(&d).ok().map(|_| d)
         },
         ambient: std::env::var("VERIF_AMBIENT").map_or(true, |v| v != "0"),
-        ambient_budget: (if thorough { 1920.0 } else { 120.0 }) / chk.phases.len().max(1) as f64,
+        ambient_budget: ((if thorough { 1920.0 } else { 120.0 }) / chk.phases.len().max(1) as f64).min(if thorough { 640.0 } else { 48.0 }),
     };
     let mut reports = vec![];
     for ph in &chk.phases {
